@@ -57,8 +57,9 @@ def seeded():
         what = what.split(" at /")[0].split(" at checkpoint_schedules")[0].split(" (")[0][:110]
         if rc != 1 or nv == 0:
             bad.append(sid)
-        vc += by_vc
-        bounded_only += (not by_vc)
+        reported = (rc == 1 and nv > 0)
+        vc += (by_vc and reported)
+        bounded_only += ((not by_vc) and reported)
         rows.append("| %s | %s | %s | `%s` |" % (sid, "VIOLATION" if rc == 1 and nv else "not reported (exit=%d)" % rc,
                                                 ("VC" if by_vc else "bounded") if rc == 1 and nv else "-", what or "-"))
     head = ("Last full run (`seeded/results.txt`): %d changes, %d reported as VIOLATION by the target "
